@@ -452,7 +452,36 @@ def contracts(reg):
     return out
 
 
-EXTRA = [file_metadata_defaults]
+def native_sweep(repo, tier):
+    """BOUNDED validation (never counted as a proof): every fixture of the repository (with its path and with path None)
+    is extracted under /venv/bin/python and every accessor of every result / unit / image / table is called and checked
+    against the interface (replay/C04.py::check_result).  It validates the assumed models (DT-TYPED, pathlib, io.BytesIO,
+    ImageMetadata mirror) on real objects; a failure is a violation with a replayable input."""
+    import json
+    import os
+    import subprocess
+    from pyvc.flow import ground_obligation
+    root = os.path.dirname(os.path.dirname(os.path.abspath(__file__)))
+    req = {"property": "C04", "obligation": "validation", "sweep": True, "fixtures_only": True}
+    oid = "C04/package/assumed-model-validation#fixtures-honour-the-interface"
+    try:
+        p = subprocess.run(["/venv/bin/python", os.path.join(root, "replay", "run.py")], input=json.dumps(req), capture_output=True,
+                           text=True, timeout=900, env=dict(os.environ, VERIF_REPO=repo))
+        lines = [l for l in p.stdout.splitlines() if l.startswith("{")]
+        res = json.loads(lines[-1]) if lines else {}
+    except Exception as e:  # noqa
+        res = {"note": str(e)}
+    if "count" not in res:
+        return {"obligations": [], "undecided": [{"obligation": oid, "why": "native sweep did not run: " + str(res.get("note", ""))[:200]}]}
+    ff = res.get("failures", [])
+    o = ground_obligation(oid, not ff, "; ".join(f"{x['file']}: {x['where']}: {x['detail']}" for x in ff[:4]) or f"{res.get('files')} fixtures x 2 path arguments: no interface failure",
+                          "package", kind="assumption-validation", backend="native-replay(bounded: repository fixtures)")
+    return {"obligations": [o]}
+
+
+from contracts import c04_flow as FLOW  # noqa: E402
+
+EXTRA = [file_metadata_defaults, FLOW.image_constructor_sites, FLOW.field_store_sites, FLOW.chr_sites, FLOW.decode_sites, FLOW.literal_sites, native_sweep]
 REPLAY_UNKNOWN = True
 TRUSTED = []
 ASSUMED_MODELS = []
